@@ -45,6 +45,24 @@ def eval_case(case):
         explicit = bool(case.get("explicit_path"))
         # the file is named at construction, or only in the call (the task then keeps pointing elsewhere)
         st = BaseSubProjectTask(file_path=(path + ".elsewhere" if explicit else path), name="sub")
+        if case.get("reconf_su") and status == 1:
+            # the task was configured from ANOTHER result before (the same sub-project with another unit time)
+            # and related to the same parent unit: nothing of that may survive the configuration judged below
+            sub2 = dict(sub, unit=case["reconf_su"])
+            sim.set_ranks(sub2)
+            sb2 = sim.build(sub2)
+            fd2, path2 = tempfile.mkstemp(suffix=".json", dir=C.WORK)
+            os.close(fd2)
+            try:
+                with warnings.catch_warnings():
+                    warnings.simplefilter("ignore")
+                    sb2.project.simulate(**sim.sim_kwargs(op))
+                    sb2.project.write_simple_json(path2)
+                    st.set_all_attributes_from_json(file_path=path2, remove_absence_time_list=not case["remove_abs"])
+                    st.set_work_amount_progress_of_unit_step_time(datetime.timedelta(seconds=pu))
+            finally:
+                os.unlink(path2)
+            sim.set_ranks(sub)
         before = dict(vars(st))
         with warnings.catch_warnings(record=True) as wl:
             warnings.simplefilter("always")
@@ -178,6 +196,7 @@ def gen_cases(rng, n):
         units = [15, 30, 60, 120, 240, 480] if rng.random() < 0.8 else [20, 60, 180, 45, 100]
         npre = rng.choice([0, 1, 1, 2])
         cases.append({"subproject": c, "su": rng.choice(units), "pu": rng.choice(units), "remove_abs": rng.random() < 0.5,
+                      "reconf_su": rng.choice(units) if rng.random() < 0.2 else None,
                       "explicit_path": rng.random() < 0.4, "refuse_after": rng.random() < 0.3,
                       "pre": [gen.qs(rng.choice([Fraction(1), Fraction(2), Fraction(1, 2), Fraction(0)])) for _ in range(npre)],
                       "pre_kinds": [rng.choice([0, 0, 1]) for _ in range(npre)], "pos": rng.randrange(0, 5),
